@@ -311,6 +311,9 @@ C03_Announced(B, T, e) ==
      \* a pickup that is reported is a pickup that happened (the request boarded in this very update)
      {V("C03", "announced_pickup_is_a_pickup", "request", x.request_id) :
         x \in {x \in Reports(e, "pickup_request_event") : x.request_id \notin PickedNow(B, T, e)}}
+     \* ... and a pickup that happened leaves its trace: the request that boarded in this update is reported picked up
+  \cup {V("C03", "pickup_leaves_a_trace", "request", r) :
+        r \in PickedNow(B, T, e) \ {x.request_id : x \in Reports(e, "pickup_request_event")}}
   ELSE IF e.ev # "pre" THEN {} ELSE
      {V("C03", "announced_admission_is_admitted", "request", x.request_id) :
         x \in {x \in Reports(e, "add_request_event") : x.request_id \notin DOMAIN T.req}}
